@@ -273,6 +273,10 @@ async def _run(case, loop, base, root, outside):
             vio.append(V("C19/outside-modified", "request %d method %d Uri-Path %r changed %r (response %s)" % (ri, rq["method"], path, [k for k, _ in changed][:3], resp.code)))
             outside_before = outside_after
         inside_after = snapshot(root)
+        if not os.path.isdir(root):
+            # the directory the server was started with is not itself one of the objects inside it
+            vio.append(V("C19/root-directory-removed", "request %d method %d Uri-Path %r (response %s): the served directory is gone" % (ri, rq["method"], path, resp.code)))
+            break
         if not write and inside_after != inside_before:
             vio.append(V("C19/modified-without-write-permission", "request %d method %d Uri-Path %r (response %s)" % (ri, rq["method"], path, resp.code)))
         elif (code >> 5) in (4, 5) and inside_after != inside_before:
@@ -506,7 +510,8 @@ def _path_spec(draw):
 @st.composite
 def _case(draw):
     tree = []
-    for _ in range(draw(st.integers(0, 6))):
+    # (small trees matter: a directory whose only content is one nested file)
+    for _ in range(draw(st.sampled_from([0, 1, 1, 1, 2, 3, 4, 5, 6]))):
         rel = draw(st.lists(st.sampled_from(NAMES), min_size=1, max_size=3))
         tree.append([rel, draw(st.one_of(st.none(), st.sampled_from(FILE_SIZES)))])
     reqs = []
